@@ -35,7 +35,9 @@ def main():
         pid = p["id"]
         path = os.path.join(HERE, "props", pid.lower() + ".py")
         mod = None
-        if os.path.isfile(path):
+        ready_file = os.path.join(HERE, "ready.txt")
+        ready = set(open(ready_file).read().split()) if os.path.isfile(ready_file) else None
+        if os.path.isfile(path) and (ready is None or pid in ready):
             mod = importlib.import_module(f"sa.props.{pid.lower()}")
         if mod is None or getattr(mod, "CLAIMED", True) is False:
             reason = getattr(mod, "NOT_APPLICABLE_REASON", None) if mod else None
